@@ -1107,6 +1107,135 @@ fn history(ctx: &mut Ctx, rng: &Rng, nops: usize, max_heap_len: usize) {
     ctx.rep.sample(|| json_str(&trace.iter().take(40).cloned().collect::<Vec<_>>().join(" ")));
 }
 
+/// Small-scope exhaustive: every sequence of `depth` operations over a 13-letter alphabet of capacity-relevant
+/// operations, from start states at and next to the capacity, checked against the model after every step.
+fn sweep_capacity_histories(ctx: &mut Ctx, depth: usize, shard: (u64, u64)) {
+    let cap = if HEAP { usize::MAX } else { CAP };
+    const NOPS: u64 = 13;
+    let total = NOPS.pow(depth as u32);
+    let starts: [(usize, u64); 8] = [(0, 0), (1, u64::MAX), (60, u64::MAX), (61, u64::MAX), (62, u64::MAX), (61, 0), (62, 0), (62, 1)];
+    for (si, &(len0, fill)) in starts.iter().enumerate() {
+        if HEAP && cfg!(debug_assertions) && len0 > CAP {
+            continue;
+        }
+        let mut code = shard.0;
+        while code < total {
+            let mut ops = Vec::with_capacity(depth);
+            let mut c = code;
+            for _ in 0..depth {
+                ops.push((c % NOPS) as u8);
+                c /= NOPS;
+            }
+            code += shard.1;
+            let r = util::catch(|| -> Option<String> {
+                let init: Vec<u64> = {
+                    let mut v = vec![fill; len0];
+                    if len0 > 0 && fill == 0 {
+                        v[0] = 7; // value 7 with zero limbs above: not normalized
+                    }
+                    v
+                };
+                let mut x = mk(&init);
+                let mut m: Vec<u64> = init.clone();
+                for (step, &op) in ops.iter().enumerate() {
+                    let len = m.len();
+                    match op {
+                        0 | 1 => {
+                            let val = if op == 0 { u64::MAX } else { 0 };
+                            let r = x.try_push(val as Limb);
+                            let ok = len < cap;
+                            if ok {
+                                m.push(val);
+                            }
+                            if r.is_some() != ok {
+                                return Some(format!("step {} push: outcome {:?}, expected ok={}", step, r, ok));
+                            }
+                        }
+                        2 => {
+                            if x.pop().map(|v| v as u64) != m.pop() {
+                                return Some(format!("step {} pop value", step));
+                            }
+                        }
+                        3 | 4 => {
+                            let k = if op == 3 { 1 } else { 2 };
+                            let ext = vec![5u64; k];
+                            let r = x.try_extend(&ext.iter().map(|&v| v as Limb).collect::<Vec<Limb>>());
+                            let ok = len + k <= cap;
+                            if ok {
+                                m.extend_from_slice(&ext);
+                            }
+                            if r.is_some() != ok {
+                                return Some(format!("step {} extend({}): outcome {:?}, expected ok={}", step, k, r, ok));
+                            }
+                        }
+                        5 | 6 | 7 | 8 => {
+                            let target = [0usize, 61, 62, 63][(op - 5) as usize];
+                            if HEAP && cfg!(debug_assertions) && target > CAP {
+                                continue;
+                            }
+                            let r = x.try_resize(target, 9 as Limb);
+                            let ok = target <= cap;
+                            if ok {
+                                m.resize(target, 9);
+                            }
+                            if r.is_some() != ok {
+                                return Some(format!("step {} resize({}): outcome {:?}, expected ok={}", step, target, r, ok));
+                            }
+                        }
+                        9 => {
+                            if !(HEAP && cfg!(debug_assertions) && len > CAP) {
+                                x.normalize();
+                                while m.last() == Some(&0) {
+                                    m.pop();
+                                }
+                            }
+                        }
+                        10 | 11 => {
+                            // add_small(1) / mul_small(MAX): carries ripple through all-ones limbs up to the capacity
+                            let (r, value) = if op == 10 { (x.add_small(1), BigU::from_limbs64(&m).add_u64(1)) } else { (x.mul_small(u64::MAX as Limb), BigU::from_limbs64(&m).mul_u64(u64::MAX)) };
+                            let nl = m.len().max(limbs64(&value));
+                            if nl <= cap {
+                                let mut nv = value.to_limbs64();
+                                nv.resize(nl, 0);
+                                m = nv;
+                                if r.is_none() {
+                                    return Some(format!("step {} small arithmetic reported failure although {} limbs fit", step, nl));
+                                }
+                            } else {
+                                if r.is_some() {
+                                    return Some(format!("step {} small arithmetic succeeded although the result needs {} limbs", step, nl));
+                                }
+                                m = x.to_vec().iter().map(|&v| v as u64).collect();
+                            }
+                        }
+                        _ => {
+                            let y = x.clone();
+                            if !(y == x) || y.len() != x.len() {
+                                return Some(format!("step {} clone differs", step));
+                            }
+                        }
+                    }
+                    let vis: Vec<u64> = x.iter().map(|&v| v as u64).collect();
+                    if vis != m || x.len() != m.len() || x.is_empty() != m.is_empty() || (!HEAP && x.len() > CAP) {
+                        return Some(format!("step {} state: visible len {} contents {} ; model len {} contents {}", step, vis.len(), hexl(&vis[vis.len().saturating_sub(3)..]), m.len(), hexl(&m[m.len().saturating_sub(3)..])));
+                    }
+                }
+                None
+            });
+            ctx.rep.evals += 1;
+            ctx.rep.count("sweep.capacity_histories");
+            ctx.rep.add("history.operations", depth as u64);
+            let descr = || format!("scripted history: start len {} fill {:x}, ops {:?} (0/1 push MAX/0, 2 pop, 3/4 extend 1/2, 5-8 resize 0/61/62/63, 9 normalize, 10 add_small(1), 11 mul_small(MAX), 12 clone)", len0, fill, ops);
+            match r {
+                Ok(None) => {}
+                Ok(Some(msg)) => ctx.violation("history-scripted", &descr(), &msg, "the sequence model"),
+                Err(msg) => ctx.violation("history-panic", &descr(), &format!("panic at {}: {}", util::last_panic_loc(), msg), "no panic on the safe API"),
+            }
+            let _ = si;
+        }
+    }
+}
+
 fn main() {
     let args = Args::parse();
     util::quiet_panics();
@@ -1230,6 +1359,11 @@ fn main() {
     } else {
         let nops_max = args.u64("history-ops", 400) as usize;
         let max_heap_len = if cfg!(debug_assertions) { CAP } else { 200 };
+        let depth = args.u64("sweep-depth", 0) as usize;
+        if depth > 0 {
+            sweep_capacity_histories(&mut ctx, depth, shard);
+            ctx.rep.extra.insert("scripted_history_depth".into(), format!("{}", depth));
+        }
         while ctx.rep.evals < max {
             if ctx.rep.out_of_time() {
                 break;
